@@ -2,6 +2,7 @@ import N0Verif.Proofs.CompareOpts
 import N0Verif.Proofs.CompareTransform
 import N0Verif.Proofs.CompareTransformKeyed
 import N0Verif.Proofs.CompareKeyVals
+import N0Verif.Proofs.CompareTransformCk
 import N0Verif.Proofs.XPathMatchGenEq
 /-!
 # C10 — exclude_xpaths, compare_only and transform only narrow or map what is compared
@@ -174,17 +175,45 @@ def IdxBlind (cfg : Cfg) : Prop :=
     transformAt cfg (p ++ .idx2 i j :: q) = transformAt cfg (p ++ .idx i :: q) ∧
     transformAt cfg (p ++ .idx2 i j :: q) = transformAt cfg (p ++ .idx j :: q)
 
-/-- the statement of `C10_transform_keyed` WITH a composite key — stated, not proved (the proved part is
-`C10_transform_keyed_ck_keys`: same keys, hence same pairing).  What is missing is the walk induction for a pair met
-across positions: the run with `transform` compares the leaves of the pair at `prefix[i]<>[j]/field` while the mapped
-trees were built with `prefix[i]/field` (left) and `prefix[j]/field` (right), which needs `IdxBlind` and a
-three-path generalisation of the induction of `Proofs/CompareTransformKeyed.lean`.  Checked on the implementation by
-evaluator `transform/ck` (patterns `rows/<field>`, `rows[i]/<field>`, `//<field>`, `*/<field>`). -/
+/-- the statement of `C10_transform_keyed` WITH a composite key (and without: `cfg.ck` is unrestricted) — **proved**:
+`C10_transform_keyed_ck` below.  The keys agree item by item (`C10_transform_keyed_ck_keys`), so both runs pair the same
+positions; for a pair met across positions the run with `transform` compares the leaves at `prefix[i]<>[j]/field` while
+the mapped trees were built with `prefix[i]/field` (left) and `prefix[j]/field` (right): under `IdxBlind` the three
+lookups are one (`trck_mapT_congr`: the mapping of a subtree depends on its prefix only through the transform lookups of
+the extensions of the prefix), and the walk induction goes through with general keys (`trck_keyedWalk`,
+`Proofs/CompareTransformCk.lean`).  Also checked on the implementation by evaluator `transform/ck` (patterns
+`rows/<field>`, `rows[i]/<field>`, `//<field>`, `*/<field>`). -/
 def C10_transform_keyed_ck_stmt : Prop :=
   ∀ (cfg : Cfg) (a b : Val), cfg.direct = false → LeafTransform cfg → IdxBlind cfg →
     recOnly a = true → recOnly b = true →
     (∀ x ∈ allItems a ++ allItems b, keyFieldsLeaf cfg x) →
     TrERel (compareTop cfg a b) (compareTop (noTransf cfg) (mapT cfg [] a) (mapT cfg [] b))
+
+/-- **C10 (transform, keyed/default comparison WITH a composite key).**  For `compare` (`cfg.direct = false`), EVERY
+composite key, `LeafTransform cfg`, `IdxBlind cfg` (no transform pattern tells `[i]`, `[j]` and `[i]<>[j]` apart), every
+other option and flag record, on trees every list of which holds records only or leaves only, the key fields of the
+records being leaves: the run with `transform` on `(a, b)` and the run without it on the mapped trees raise the same
+exception or return results of the same shape — records paired ACROSS positions (`[i]<>[j]`) included, at every depth
+(keyed lists inside the records of keyed lists too). -/
+theorem C10_transform_keyed_ck : C10_transform_keyed_ck_stmt := by
+  intro cfg a b hd hl hb ha hb' hk
+  exact compareTop_tr_ck cfg hd hl hb a b ⟨ha, fun z hz => hk z (List.mem_append_left _ hz)⟩
+    ⟨hb', fun z hz => hk z (List.mem_append_right _ hz)⟩
+
+/-- … in particular the verdict is the verdict on the mapped trees -/
+theorem C10_transform_keyed_ck_verdict (cfg : Cfg) (a b : Val) (hd : cfg.direct = false) (hl : LeafTransform cfg)
+    (hb : IdxBlind cfg) (ha : recOnly a = true) (hb' : recOnly b = true)
+    (hk : ∀ x ∈ allItems a ++ allItems b, keyFieldsLeaf cfg x) :
+    verdict (compareTop cfg a b) = verdict (compareTop { cfg with tr := [] } (mapT cfg [] a) (mapT cfg [] b)) := by
+  have hrel := C10_transform_keyed_ck cfg a b hd hl hb ha hb' hk
+  change _ = verdict (compareTop (noTransf cfg) (mapT cfg [] a) (mapT cfg [] b))
+  cases hc : compareTop cfg a b <;> cases hc' : compareTop (noTransf cfg) (mapT cfg [] a) (mapT cfg [] b) <;>
+    rw [hc, hc'] at hrel
+  · rfl
+  · exact hrel.elim
+  · exact hrel.elim
+  · simp only [tr_erel_ok_ok, Res.shape, Prod.mk.injEq] at hrel
+    simp [verdict, hrel.1]
 
 /-- the inputs of finding C10-c: `{'rows': [{'id': '1', 'v': 1}, {'id': '2', 'v': 2}]}` against the same with `rows`
 reversed, `composite_key='id'`: (a) the pattern `rows/id` (no index: matches no dictionary entry) with the constant
